@@ -177,6 +177,10 @@ Theorem C18_nifti_read_itk :
 Proof. exact nifti_read_itk. Qed.
 Print Assumptions C18_nifti_read_itk.
 
+Theorem C18_big_endian_and_channelless : msb_and_nochannel_ok = true.
+Proof. exact msb_and_nochannel_hold. Qed.
+Print Assumptions C18_big_endian_and_channelless.
+
 (* non-vacuity: a rotated anisotropic 2-D grid with 2 channels is well-formed, its direction is orthonormal,
    the channel move really permutes, and the SimpleITK round trip returns it *)
 Definition ex_img : image QcF nat :=
